@@ -230,33 +230,49 @@ pub fn run(ctx: &Ctx) -> Report {
     let mut rep = Report::new(
         "every Boolean function of n variables (n <= 3 quick, 4 thorough; plus one unused builder variable) x every variable order x every smoothing depth k = 0..#vars: function preserved, every path tests levels 0..k-1 exactly once in order, and for k = #vars the count under integer (low, high) weights from {(1,1),(1,2),(2,3),(3,5),(5,2),(0,3),(2,0)} equals the brute-force sum; distinct = (function, order, depth), non-trivial = function not constant",
     );
-    let mut items: Vec<(usize, usize, Vec<usize>, usize, usize)> = Vec::new();
+    let mut items: Vec<(usize, usize, Vec<usize>, usize, usize, usize)> = Vec::new();
     let ns: Vec<(usize, usize)> = match ctx.tier {
         Tier::Quick => vec![(1, 0), (2, 0), (2, 1), (3, 0), (3, 1)],
         Tier::Thorough => vec![(1, 0), (2, 0), (2, 1), (3, 0), (3, 1), (4, 0), (4, 1)],
     };
     for (n, extra) in ns {
         for o in permutations(n + extra) {
-            items.push((n, extra, o.clone(), 2, 0));
+            items.push((n, extra, o.clone(), 2, 0, 1));
         }
         // one configuration at the library's default table capacity
-        items.push((n, extra, (0..n + extra).rev().collect(), 0, 0));
+        items.push((n, extra, (0..n + extra).rev().collect(), 0, 0, 1));
         // managers grown by new_var: every order of the initial variables, 1..#vars appended
         let nv = n + extra;
         for a in 1..=nv {
             for o in permutations(nv - a) {
                 let mut full = o.clone();
                 full.extend(nv - a..nv);
-                items.push((n, extra, full, 2, a));
+                items.push((n, extra, full, 2, a, 1));
             }
         }
     }
-    let r = par_run(ctx, &items, |_, (n, extra, o, cap, a)| run_config(*n, *extra, o, *cap, ctx, 1, *a));
+    // strided slices of larger function spaces: every 16th function of F(4) in quick (all of it
+    // in thorough, above), an arithmetic progression through the 2^32 functions of 5 variables
+    // under every order in thorough (6 orders in quick)
+    if ctx.tier == Tier::Quick {
+        for o in permutations(4) {
+            items.push((4, 0, o, 2, 0, 16));
+        }
+    }
+    {
+        let step5 = ctx.tier.pick(26_843_543, 4_194_301);
+        let orders5: Vec<Vec<usize>> = if ctx.tier == Tier::Quick { permutations(5).into_iter().step_by(23).collect() } else { permutations(5) };
+        for o in orders5 {
+            items.push((5, 0, o, 2, 0, step5));
+        }
+        items.push((5, 0, vec![2, 0, 1, 3, 4], 2, 2, step5));
+    }
+    let r = par_run(ctx, &items, |_, (n, extra, o, cap, a, step)| run_config(*n, *extra, o, *cap, ctx, *step, *a));
     let mid = r.extra.get("functions_skipping_a_non_bottom_level").and_then(|v| v.as_u64()).unwrap_or(0);
     rep.merge(r);
     rep.floor("functions whose diagram skips a non-bottom level", mid, 1);
     rep.distinct_nontrivial = rep.transitions;
-    rep.bound("functions", json!(match ctx.tier { Tier::Quick => "all of F(1..3), with and without one unused variable", Tier::Thorough => "all of F(1..4), with and without one unused variable" }));
+    rep.bound("functions", json!(match ctx.tier { Tier::Quick => "all of F(1..3), with and without one unused variable; every 16th function of F(4); about 160 functions of F(5) under 6 orders", Tier::Thorough => "all of F(1..4), with and without one unused variable; about 1000 functions of F(5) under all 120 orders" }));
     rep.bound("orders", json!("all permutations; plus managers created over the first m variables (all permutations) and grown to #vars by new_var, m = 0..#vars-1"));
     rep.bound("weights", json!("full product of the 7-pair alphabet for <= 3 variables (<=2 in quick), a 13-element rule-defined slice above"));
     rep.sample(json!({"function": "0xf0 (= x2)", "order": [0, 1, 2], "depth": 3, "expected_paths": "x0,x1,x2 on every path"}));
